@@ -88,3 +88,10 @@ package vm_context
 //@   modifies self.balance, self.received, self.seqFront, self.chainPlasma, self.storageVersion
 //@ func AccountVmContext.Done(self)
 //@   modifies nothing
+
+// ---- the clock embedded contracts see (C10): the frontier momentum of the context ----------------------------------------
+//@ model AccountVmContext now int      // unix seconds of the context's frontier momentum
+//@ model AccountVmContext height int   // its height
+//@ func AccountVmContext.GetFrontierMomentum(self) -> (m, err)
+//@   ensures err == nil ==> m != nil && m.Timestamp != nil && timenano(m.Timestamp) / 1000000000 == self.now && m.Height == self.height
+//@   modifies nothing
